@@ -630,6 +630,10 @@ impl Check for C17 {
         ctx.sim_time(1_000_000 * faults.len() as u128);
         if c.transfers.len() > 1 {
             ctx.probe("concurrent_transfers");
+            let f = &c.transfers[0];
+            if c.transfers[1..].iter().any(|t| (t.serial, &t.name, t.data.len(), t.pkg) == (f.serial, &f.name, f.data.len(), f.pkg)) {
+                ctx.probe("twin_announcement_from_other_ecu_or_lifecycle");
+            }
         }
         if c.auto_save {
             ctx.probe("auto_save_enabled");
@@ -706,6 +710,6 @@ impl Check for C17 {
         vec!["senders and transport (generator)", "file system = real fs inside a per-run sandbox with canary parent"]
     }
     fn required_reach() -> Vec<&'static str> {
-        vec!["drop_package", "duplicate_adjacent", "swap_packages", "resize_package", "drop_announcement", "drop_end_marker", "concurrent_transfers", "manual_saves_compared", "auto_saves_compared", "preexisting_file_in_autosave_dir", "dangling_symlink_in_autosave_dir", "duplicate_announcement", "duplicate_end_marker"]
+        vec!["drop_package", "duplicate_adjacent", "swap_packages", "resize_package", "drop_announcement", "drop_end_marker", "concurrent_transfers", "twin_announcement_from_other_ecu_or_lifecycle", "manual_saves_compared", "auto_saves_compared", "preexisting_file_in_autosave_dir", "dangling_symlink_in_autosave_dir", "duplicate_announcement", "duplicate_end_marker"]
     }
 }
